@@ -291,6 +291,9 @@ Definition mstep (s : mstate) (kind : string) (a : list N) (data : list N) (rl :
                                        else with_marks s g (List.length data) false (spec_put (ms_table s) g (map (fun _ => UNKNOWN) data) acc))
                          a (ms_bytes s) in
       ((if ok && existsb (fun g => negb (mapped (ms_table s) g)) a then 13 else 0), set_bytes s b (ms_fuzzy_bytes s))
+  else if String.eqb kind "par_stress" then
+    (* C15: concurrent writers never lose each other's bits *)
+    match res with VL [VS "ok"; VN 0] => (0, s) | VL [VS "ok"; VN _] => (15, s) | _ => (0, s) end
   else if String.eqb kind "set_vring_num" then
     match ring with
     | Some r =>
@@ -468,7 +471,8 @@ Fixpoint mwalk (s : mstate) (serving : bool) (steps obs : list val) : N :=
                 | _ => [] end in
       match res with
       | VS "panic" => 5            (* C05: the step brought the backend side down *)
-      | VS "hung" => 5             (* ... or left it neither answering nor closing the connection *)
+      | VS "hung" => 35            (* ... or left it neither answering nor closing the connection: the frontend's call
+                                      never returns (C03) *)
       | _ =>
           match val_NL nums with
           | Some a =>
